@@ -292,11 +292,11 @@ def tie(ctx):
     thorough = ctx.tier == "thorough"
     schemas = G.pick_schemas(ctx.tier, ctx.seed)
     n_hist = 2
-    lengths = [30, 36] if thorough else [24, 22]
+    lengths = [70, 36] if thorough else [62, 22]    # history 0: seed + enrich + sweep (every mutating operation) + random
     cases = []
     for sch in schemas:
         for hi in range(n_hist):
-            h = G.gen_history(rng, sch, lengths[hi % len(lengths)], enrich="early" if hi % 2 == 0 else False)
+            h = G.gen_history(rng, sch, lengths[hi % len(lengths)], enrich="early" if hi % 2 == 0 else False, sweep=hi % 2 == 0)
             lines = list(h.lines)
             if G.family(sch) == "v2":
                 # rows the high-level API never produces: table-API setters on every track, twice along the history
